@@ -1278,7 +1278,7 @@ def counter_family() -> List[Dict[str, Any]]:
 def search(ctx, broken):
     """A larger sweep with the property (fresh interpreter vs after a benign history) as the only judge."""
     known = set(ctx._known)
-    for rnd in range(5):
+    for rnd in range(9):
         # first a directed family derived from WHAT the name-counter tie says: k earlier uses of a column label, then a probe
         # that books that label next to the label extended by a digit (label first, so that the code as it stands — one
         # global counter — cannot make the two storage names coincide); then the random sweeps
